@@ -96,6 +96,9 @@ FINDINGS = [
     {'id': 'F-C10-8', 'property': 'C10', 'status': 'open',
      'what': 'wikilinks: a blank label `[[ ]]` is replaced by an empty string that is stashed; when it is resolved two backtick runs join and a code span forms around an escape placeholder on the second visit (STX 42 ETX inside <code>)',
      'witness': {'text': '*_`[[ ]]`` \\* ```_*', 'extensions': ['wikilinks']}},
+    {'id': 'F-C10-9', 'property': 'C10', 'status': 'open',
+     'what': 'legacy_attrs: a backslash-escaped character inside the KEY of a `{@key=value}` definition leaves its placeholder STX n ETX in an attribute NAME of the output (UnescapeTreeprocessor restores texts, tails and attribute values, never names); kernel-checked on the model: Props/C16Legacy.lean C10_legacy_key_leak',
+     'witness': {'text': 'para {@a\\_b=1} x', 'extensions': ['legacy_attrs']}},
 ]
 
 # ------------------------------------------------------------------ classification of a leaking output
@@ -111,6 +114,20 @@ _ANYFULL = re.compile('%s[^%s%s]*%s' % (STX, STX, ETX, ETX))
 _TRUNC2 = re.compile('%s[^%s%s"<>]*(?=")' % (STX, STX, ETX))
 _AMPTAGFENCE = re.compile(r'&#(?s:.*?)</[A-Za-z][^\n]*\n[ ]*(?:```|~~~)')
 _TAILPH = re.compile('([%s]?)((?:[wzxhdk]{0,7}:)?)([0-9]*)%s' % (STX, ETX))
+
+
+_LEGACYKEY = re.compile(r'\{@[^}]*\\[^}]*=')        # a backslash between `{@` and a later `=` of the same brace group: an escape in the key
+_OPENTAG = re.compile(r'<[A-Za-z][^<>]*>')
+
+
+def _drop_esc_in_attr_names(work):
+    """remove escape placeholders `STX n ETX` that stand inside a start tag but outside its quoted attribute values"""
+    def fix(m):
+        parts = re.split(r'("[^"]*")', m.group(0))
+        for i in range(0, len(parts), 2):
+            parts[i] = _ESC.sub('', parts[i])
+        return ''.join(parts)
+    return _OPENTAG.sub(fix, work)
 
 
 def _drop_headless(work):
@@ -236,6 +253,11 @@ def classify(text, exts, out, fmt='xhtml'):
         w2 = _drop_headless(work)
         if w2 != work:
             note('F-C10-7', 'headless-raw-placeholder'); work = w2
+    # F-C10-9: legacy_attrs makes the text of a key an attribute NAME; escape placeholders in names are never restored
+    if 'legacy_attrs' in exts and _LEGACYKEY.search(text):
+        w2 = _drop_esc_in_attr_names(work)
+        if w2 != work:
+            note('F-C10-9', 'escape-in-attr-name'); work = w2
     bare = _BSESC.sub('', text)        # backslash-escaped brackets are not brackets
     nest = bool(_NEST.search(bare)); qdest = bool(_QDEST.search(text))
     # F-C10-1 / F-C10-2: values of href/src/title/alt
@@ -299,7 +321,7 @@ def classify(text, exts, out, fmt='xhtml'):
         return None, shapes + ['unexplained:' + repr(work[max(0, m.start() - 25):m.end() + 25])]
     if not found:
         return None, shapes + ['toc-copy-only']
-    for fid in ('F-C10-1', 'F-C10-2', 'F-C10-3', 'F-C10-5', 'F-C10-4', 'F-C10-6', 'F-C10-7', 'F-C10-8'):
+    for fid in ('F-C10-1', 'F-C10-2', 'F-C10-3', 'F-C10-5', 'F-C10-4', 'F-C10-6', 'F-C10-7', 'F-C10-8', 'F-C10-9'):
         if fid in found:
             return fid, shapes
     return None, shapes
@@ -338,6 +360,15 @@ def gen_case(rng):
         exts = G.ext_subset(rng)
     else:
         exts = sorted(e for e in G.EXTENSIONS if rng.random() < rng.choice([0.2, 0.5, 0.8]))
+    if rng.random() < 0.06:
+        # `{@key=value}` definitions of legacy_attrs (keys over name characters and escapes; values over words, escapes, markup)
+        for _ in range(rng.choice([1, 1, 2])):
+            i = rng.randint(0, len(text))
+            key = ''.join(rng.choice(['id', 'class', 'k', 'a', '-', '_', ':', '1', '\\_', '\\*', 'x']) for _ in range(rng.randint(1, 3)))
+            val = ''.join(rng.choice(['v', 'w', ' ', '\\_', '*e*', '`c`', '&amp;', '&', '1', '"', "'", '\n', 'x y']) for _ in range(rng.randint(0, 3)))
+            text = text[:i] + '{@' + key + '=' + val + '}' + text[i:]
+        exts = sorted(set(exts) | {'legacy_attrs'})
+        kind = kind + '+legacy'
     fmt = rng.choice(['xhtml', 'xhtml', 'html'])
     return kind, text, exts, fmt
 
